@@ -388,8 +388,13 @@ class Ctx:
             if os.path.isdir(kd):
                 for f in sorted(os.listdir(kd)):
                     if f.endswith(".json"):
-                        self._known += json.load(open(os.path.join(kd, f)))
-        return [k for k in self._known if k.get("property") == self.pid and k.get("status") == "finding"]
+                        try:
+                            j = json.load(open(os.path.join(kd, f)))
+                        except Exception:
+                            continue
+                        if isinstance(j, list):
+                            self._known += [k for k in j if isinstance(k, dict)]
+        return [k for k in self._known if isinstance(k, dict) and k.get("property") == self.pid and k.get("status") == "finding"]
 
     def known_finding(self, entry, what=None):
         line = "KNOWN-FINDING: property=%s %s" % (self.pid, what or entry.get("what", entry.get("id")))
